@@ -302,7 +302,7 @@ def run(ctx):
                          "presence patterns of the four consumer quantities")
     for name, fn in GEN:
         try:
-            ctx.gen(name, fn())
+            c10.gen_if_needed(ctx, name, fn())
         except Exception as e:  # noqa: BLE001
             ctx.broken("translator", name, repr(e))
     import threading
